@@ -153,7 +153,7 @@ func runSqlwCtx(sc sqlwScenario, failAt int, cancel bool) (string, []recCall) {
 	if cancel && sc.entry == 1 {
 		// database/sql rolls a cancelled transaction back from its own goroutine, possibly after the call
 		// returned: wait (bounded) for the driver-level rollback before closing the trace
-		for w := 0; w < 100; w++ {
+		for w := 0; w < 2500; w++ {
 			st.mu.Lock()
 			began, ended := false, false
 			for _, c := range st.calls {
